@@ -1,0 +1,43 @@
+//! Verification hooks, compiled only with the `verif-hooks` cargo feature.
+//!
+//! A deterministic simulator may install two process-wide callbacks:
+//!
+//! * a *yield hook*, called at a few points of the interpreter where a caller
+//!   thread may be pre-empted by the simulator's scheduler;
+//! * a *clock hook*, consulted instead of the wall clock by the functions that
+//!   infer a missing year/day or turn a time zone name into an offset "now".
+//!
+//! Until a callback is installed both hooks are no-ops, so enabling the feature
+//! alone does not change behaviour.
+
+use std::sync::OnceLock;
+
+use chrono::{DateTime, Utc};
+
+static YIELD_HOOK: OnceLock<fn(&'static str)> = OnceLock::new();
+static CLOCK_HOOK: OnceLock<fn() -> Option<DateTime<Utc>>> = OnceLock::new();
+
+/// Installs the yield callback. Only the first call has an effect.
+pub fn set_yield_hook(hook: fn(&'static str)) {
+    let _ = YIELD_HOOK.set(hook);
+}
+
+/// Installs the clock callback. Only the first call has an effect.
+pub fn set_clock_hook(hook: fn() -> Option<DateTime<Utc>>) {
+    let _ = CLOCK_HOOK.set(hook);
+}
+
+/// A point at which the simulator may switch to another caller thread.
+#[inline]
+pub fn yield_point(site: &'static str) {
+    if let Some(hook) = YIELD_HOOK.get() {
+        hook(site);
+    }
+}
+
+/// The simulated "now", if a simulator pinned one.
+#[inline]
+#[must_use]
+pub fn now_override() -> Option<DateTime<Utc>> {
+    CLOCK_HOOK.get().and_then(|hook| hook())
+}
